@@ -33,7 +33,8 @@ type EvPod struct {
 
 type Ev struct {
 	// Kind: 0 pod add, 1 pod update, 2 pod delete, 3 pod delete via tombstone, 4 tombstone holding a non-pod,
-	// 5 set add, 6 set update, 7 set delete, 8 set delete via tombstone, 9 worker steps
+	// 5 set add, 6 set update, 7 set delete, 8 set delete via tombstone, 9 worker steps, 10 the selector of the set
+	// (and its template labels) is edited in place - app=web <-> app=other - and the set informer delivers the update
 	Kind int   `json:"kind"`
 	Old  EvPod `json:"old"`
 	Cur  EvPod `json:"cur"`
@@ -72,7 +73,7 @@ func genC16(rt *rapid.T) C16Case {
 		ExprA: rapid.IntRange(0, 3).Draw(rt, "exprA") == 0, ExprB: rapid.IntRange(0, 3).Draw(rt, "exprB") == 0}
 	n := rapid.IntRange(1, 20).Draw(rt, "nevents")
 	for i := 0; i < n; i++ {
-		e := Ev{Kind: rapid.SampledFrom([]int{0, 0, 1, 1, 1, 1, 2, 2, 3, 4, 5, 6, 6, 7, 8, 9}).Draw(rt, "evKind")}
+		e := Ev{Kind: rapid.SampledFrom([]int{0, 0, 1, 1, 1, 1, 2, 2, 3, 4, 5, 6, 6, 7, 8, 9, 10}).Draw(rt, "evKind")}
 		switch {
 		case e.Kind <= 4:
 			e.Cur = genEvPod(rt, "cur")
@@ -96,7 +97,7 @@ func genC16(rt *rapid.T) C16Case {
 					e.Old = o
 				}
 			}
-		case e.Kind <= 8:
+		case e.Kind <= 8 || e.Kind == 10:
 			e.Set = rapid.IntRange(0, 2).Draw(rt, "whichSet")
 		default:
 			if rapid.IntRange(0, 3).Draw(rt, "longFailureRun") == 0 {
@@ -398,6 +399,31 @@ func runC16(rep Rep, cs C16Case) {
 			checkBounds(rep, []string{"set-add", "set-update", "set-delete", "set-delete-tombstone"}[e.Kind-5], w.drain(), one(key), one(key))
 		case 9:
 			w.workerSteps(rep, e.Outcomes, e.EarlyExit)
+		case 10:
+			i := e.Set % len(w.sets)
+			old := w.sets[i]
+			n := old.DeepCopy()
+			val := "other"
+			if sel, err := metav1.LabelSelectorAsSelector(old.Spec.Selector); err == nil && sel.Matches(labels.Set{"app": "other"}) && !sel.Empty() {
+				val = "web"
+			}
+			n.Spec.Selector = &metav1.LabelSelector{MatchLabels: map[string]string{"app": val}}
+			n.Spec.Template.Labels = map[string]string{"app": val}
+			w.sets[i] = c.Put(n).(*asv1.StatefulSet)
+			// (the pods earlier worker steps created go with the old selector: the worker steps of this check want a set
+			// whose reconcile can succeed, not one whose names are taken by its own released pods)
+			for _, p := range c.PodsIn(NS) {
+				c.Remove(sim.GVRPods, NS, p.Name)
+			}
+			c.RefreshAll()
+			w.drain()
+			for _, h := range c.SetHandlers() {
+				h.OnUpdate(old, w.sets[i])
+			}
+			key := old.Namespace + "/" + old.Name
+			checkBounds(rep, "set-update-selector", w.drain(), one(key), one(key))
+			nontrivial = true
+			rep.Label("selector-edited-in-place")
 		}
 	}
 	rep.FP(worldFPAny(cs))
